@@ -9,6 +9,7 @@ mod hubwire;
 mod hubsync;
 mod bisync;
 mod oneway;
+mod crash;
 mod c20;
 mod c19;
 mod c18;
@@ -29,6 +30,7 @@ fn main() {
         "c13" => hubsync::main(args),
         "c02" => bisync::main(args),
         "c04" => oneway::main(args),
+        "c09" => crash::main(args),
         "c20" => c20::main(args),
         "c19" => c19::main(args),
         "c18" => c18::main(args),
